@@ -84,7 +84,9 @@ PROPS = {
     'C07': seq_prop('c07', 120, 2000, mc=[MC_SNAP], more=[fam('seq', 'c07k', 40, 500),
                                                               # rows with a time-to-live: the restored collection's own vacuum takes them out like the original's
                                                               fam('exp', 'c07', 8, 32, shards=8, trace={'module': 'ExpireTrace', 'cfg': 'ExpireTrace.cfg'})]),
-    'C08': {'level': 'model_checking', 'mc': [MC_SNAP, MC_SNAP_ASBUILT, MC_SNAP2_G, MC_SNAP2_F], 'families': [fam('conc', 'c08', 32, 500), fam('conc', 'c14x', 16, 200), fam('conc', 'c08dfs', 1, 12)], 'trace': COLUMN_TRACE, 'assumptions': []},
+    'C08': {'level': 'model_checking', 'mc': [MC_SNAP, MC_SNAP_ASBUILT, MC_SNAP2_G, MC_SNAP2_F], 'families': [fam('conc', 'c08', 32, 500), fam('conc', 'c14x', 16, 200), fam('conc', 'c08dfs', 1, 12),
+                                                                                                # real parallelism: 4-6 goroutines committing to one block beside the snapshot goroutine
+                                                                                                fam('par', 'c08', 16, 300)], 'trace': COLUMN_TRACE, 'assumptions': []},
     'C09': {'level': 'model_checking', 'mc': [MC_CONC_STRICT], 'families': [fam('conc', 'c09', 48, 800), fam('par', 'c09', 8, 200)], 'trace': COLUMN_TRACE, 'assumptions': []},
     'C10': {'level': 'model_checking', 'assumptions': ['torn reads are searched for statistically under real parallelism (16 cores); the latch probes are deterministic'],
             'mc': [{'module': 'Latch', 'cfg': 'MC_Latch.cfg', 'constants': {'READLATCH': 'TRUE'}, 'quick': {}, 'thorough': {}, 'deadlock': True},
